@@ -322,6 +322,44 @@ def error_constants(run):
         run.traces_validated += 1
 
 
+FAILING = ['1/Y1', 'DAY(A1)', 'MONTH(A1)', 'YEAR(A1)', '"a"+1', '-A1', 'A1*A1', 'A1-1', 'ROUND(A1,0)', 'ROUNDUP(A1,1)', 'EDATE(A1,1)', 'EOMONTH(A1,0)',
+           'DATEDIF(A1,A1,"D")', 'DATE(A1,1,1)', 'VALUE(A1)', 'MID(A1,0,1)', 'INDEX(B1:B2,5,1)', 'INDEX(B1:B2,A1,1)', 'VLOOKUP(9,B1:B2,A1,FALSE)',
+           'MATCH(9,B1:B2,0)', 'SEARCH("q",A1)', 'LEFT(A1,A1)', 'SUM(B1:B2)/Y1', 'MAX(A1,1)+A1', 'AVERAGE(Y1:Y2)', 'NETWORKDAYS(A1,A1)', 'B1+B2']
+
+
+def failure_classes(run):
+    """IFERROR returns its fallback exactly when the evaluation of its first argument FAILS - whatever the class of the failure. Each
+    candidate expression is evaluated alone (A1 holds a text, Y1:Y2 are blank, B1:B2 hold 3 and 4): where that raises or gives an error
+    value, IFERROR(X,5) must be 5, alone, inside a larger expression and as a branch of IF; where it gives a value, IFERROR(X,5) is that value."""
+    consts = {(0, 0): 'abc', (1, 0): 3, (1, 1): 4, (2, 0): False}
+    forms = []
+    for x in FAILING:
+        forms += [f'={x}', f'=IFERROR({x},5)', f'=IF(C1,1,IFERROR({x},5))&"!"', f'=IFERROR(IFERROR({x},{x}),5)', f'=IFERROR(7,{x})']
+    res = repo.Probe(forms, consts, timeout=120).eval()
+    classes = set()
+    for j, x in enumerate(FAILING):
+        alone, plain, inside, twice, unused = res[5 * j:5 * j + 5]
+        if alone[0] != 'val' and type(alone[1]).__name__.startswith('E2Pycl'):
+            continue        # rejected by the translator (not a supported formula): no evaluation to contain
+        fails = alone[0] != 'val' or (isinstance(alone[1], str) and alone[1] in ERRORS)
+        if alone[0] != 'val':
+            classes.add(type(alone[1]).__name__)
+        want = 5 if fails else alone[1]
+        wtxt = '5!' if fails else None
+        for f, r, w in ((forms[5 * j + 1], plain, want), (forms[5 * j + 2], inside, wtxt), (forms[5 * j + 3], twice, want), (forms[5 * j + 4], unused, 7)):
+            if w is None:
+                ok = r[0] == 'val'
+            else:
+                ok = r[0] == 'val' and r[1] == w and type(r[1]) is type(w)
+            how = f'raises {type(alone[1]).__name__}' if alone[0] != 'val' else f'gives {alone[1]!r}'
+            run.judge({'in': {'formula': f, 'x': x, 'ast': {'t': 'iferror'}, 'emb': 'failclass'}, 'ideal': repr(w),
+                       'obs': repr(r[1]) if r[0] == 'val' else f'raises {type(r[1]).__name__}', 'kind': 'failure_class'}, ok,
+                      clause=f'{f} with A1 = "abc", Y1 blank: {x} alone {how}; the formula {"gives " + repr(r[1]) if r[0] == "val" else "raises " + type(r[1]).__name__}, expected {w!r}',
+                      part='failure_classes')
+            run.traces_validated += 1
+    run.notes.append(f'failure classes contained by IFERROR in this run: {sorted(classes)}')
+
+
 def repeated_in_one_formula(run):
     """A nest X used twice in ONE formula with a different conditional between the two uses: both uses are the value of X
     ("in any position inside a larger expression"). X ranges over a sample of the enumerated nests; the formula is
@@ -359,6 +397,7 @@ def check(run):
                         'an evaluation that raises counts as an error value', 'conditions are cells / comparisons; text conditions and error conditions are out of scope']
     gen(run)
     error_constants(run)
+    failure_classes(run)
     trace(run)
     repeated_in_one_formula(run)
 
@@ -370,6 +409,9 @@ def replay(run, case):
         return
     if case.get('kind') == 'error_constant':
         error_constants(run)
+        return
+    if case.get('kind') == 'failure_class':
+        failure_classes(run)
         return
     p = repo.Probe([i['formula']], CONSTS, timeout=120)
     r = p.eval(env_overrides(tuple(i['env']), i.get('style', 0)))[0]
